@@ -70,6 +70,22 @@ class ImmReqWorld(ReqWorld):
         return imm_step(self, super().step, sim, events)
 
 
+from .w_grid import GridWorld
+
+
+class ImmGridWorld(GridWorld):
+    def __init__(self, **kw):
+        super().__init__(**kw)
+        self.name = kw.get("name") or "W-grid/imm"
+
+    def step(self, sim, events):
+        return imm_step(self, super().step, sim, events)
+
+
+def make_grid(**kw):
+    return ImmGridWorld(**kw)
+
+
 def make_res(**kw):
     return ImmResWorld(**kw)
 
